@@ -23,7 +23,7 @@ ID = 'C18'
 ALL = [cg.BASIC, cg.COMPOUND, cg.ORTH, cg.FINAL, cg.SH, cg.DH]
 LEVELS = {
     'quick': [
-        {'name': 'L1-N3-M2-K2-reps4', 'N': 3, 'M': 2, 'K': 2, 'reps': 4, 'budget_s': 90},
+        {'name': 'L1-N3-M2-K2-reps4', 'N': 3, 'M': 2, 'K': 2, 'reps': 4, 'qdelay': 1, 'budget_s': 90},
         {'name': 'L2-N4-M2-K2-reps1', 'N': 4, 'M': 2, 'K': 2, 'reps': 1, 'Dpos': 1, 'budget_s': 90},
         {'name': 'L3-T1hist-M2-K3-reps6', 'templates': ['T1s', 'T1d'], 'M': 2, 'K': 3, 'hist': 1, 'guards': 0,
          'reps': 6, 'Dpos': 1, 'budget_s': 60},
@@ -41,7 +41,7 @@ LEVELS = {
 }
 WITNESSES = ['snapshot_by_pickle', 'snapshot_by_deepcopy', 'old_used_after_restore', 'postcondition_only_state_left_after_restore',
              'delayed_internal_event_pending_at_snapshot', 'equal_due_times_after_restore', 'history_restored_after_restore',
-             'contract_error_in_all_three']
+             'contract_error_in_all_three', 'snapshot_after_clock_moved']
 STUBS = ['probes are reached through builtins (VF.G/VF.A/VF.DL) so that the interpreter context stays picklable',
          'proxies pickle through z3 serialize/deserialize']
 ASSUMPTIONS = ['well-formed charts (DESIGN §2); the relax_w7 level also lets a history state be targeted from inside its parent', 'events a / none, clock advances >= 0, delays >= 0 (exact reals)',
@@ -231,30 +231,42 @@ def harness(g, chart, level, canary=False):
     r = {w: run(w, lambda it: it.execute_once()) for w in ('plain', 'orig')}
     if compare('plain', 'orig', r['plain'], r['orig'], 'undisturbed'):
         return
+    def take_snapshot():
+        pend = list(getattr(its['orig'], '_internal_queue', []))
+        if method == 'pickle':
+            its['rest'] = pickle.loads(pickle.dumps(its['orig']))
+            g.witness('snapshot_by_pickle')
+        else:
+            its['rest'] = _copy.deepcopy(its['orig'])
+            g.witness('snapshot_by_deepcopy')
+        its['rest'].context['WHO'] = 'rest'
+        HUB.ndl['rest'] = HUB.ndl.get('orig', 0)
+        if pend:
+            g.witness('delayed_internal_event_pending_at_snapshot')
     for k in range(K):
-        if k == snap_at:
-            pend = list(getattr(its['orig'], '_internal_queue', []))
-            if method == 'pickle':
-                its['rest'] = pickle.loads(pickle.dumps(its['orig']))
-                g.witness('snapshot_by_pickle')
-            else:
-                its['rest'] = _copy.deepcopy(its['orig'])
-                g.witness('snapshot_by_deepcopy')
-            its['rest'].context['WHO'] = 'rest'
-            HUB.ndl['rest'] = HUB.ndl.get('orig', 0)
-            if pend:
-                g.witness('delayed_internal_event_pending_at_snapshot')
+        # the boundary between two macro steps is wide: the snapshot is taken before or after the client moved the clock
+        late = (k == snap_at and level.get('qdelay') and g.choice('snap_after_clock_moved', 2) == 1)
+        if k == snap_at and not late:
+            take_snapshot()
         HUB.step = k
         HUB.log.clear()
         adv = g.real('adv%d' % k, 0)
         ev = ([None, 'a', 'b'] if level.get('fixed') else [None, 'a'])[g.choice('ev%d' % k, 3 if level.get('fixed') else 2)]
         hist.append(ev)
-        whos = [w for w in ('plain', 'orig', 'rest') if w in its]
-        for w in whos:
+        for w in [w for w in ('plain', 'orig', 'rest') if w in its]:
             its[w].clock.time = its[w].clock.time + adv
+        if late:
+            take_snapshot()
+            g.witness('snapshot_after_clock_moved', adv > 0)
+        whos = [w for w in ('plain', 'orig', 'rest') if w in its]
+        qd = g.real('qd%d' % k, 0) if (ev and level.get('qdelay')) else None
+        for w in whos:
             if ev:
                 from sismic.model import Event as _Ev
-                its[w].queue(_Ev(ev, jobs=[1, 2, 3]))      # every interpreter gets its own parameter object
+                if qd is None:
+                    its[w].queue(_Ev(ev, jobs=[1, 2, 3]))      # every interpreter gets its own parameter object
+                else:
+                    its[w].queue(_Ev(ev, jobs=[1, 2, 3], delay=qd))
         order_ = whos if k % 2 == 0 else [w for w in ('rest', 'plain', 'orig') if w in whos]
         r = {}
         for w in order_:
